@@ -152,18 +152,6 @@ theorem deps_ok_before_body (P : Program) (F : Flags) (n : Nat) (tr : List Label
   obtain ⟨k, h4, h5, h6⟩ := (kidDone_some c id r).mp h2
   exact ⟨id, k, h1, h4, h5, by rw [h6]; exact h3⟩
 
-theorem mem_of_lookup {α} (l : List (Nat × α)) (s : Nat) (v : α) (h : l.lookup s = some v) : (s, v) ∈ l := by
-  induction l with
-  | nil => cases h
-  | cons p l ih =>
-    obtain ⟨k, w⟩ := p
-    simp only [List.lookup] at h
-    split at h
-    · rename_i he
-      have : s = k := by simpa using he
-      cases h; subst this; exact List.mem_cons_self
-    · exact List.mem_cons_of_mem _ (ih h)
-
 /-- **(c) a failed dependency fails the dependent.** In every reachable configuration: if
 some dependency activation of `x` has a failure as its result, then `x` has started no
 command, registered no `defer:`, is not in its guards or command loop, and — once it has
@@ -497,37 +485,6 @@ theorem C03_status_partial (P : Program) (F : Flags) (n : Nat) (tr : List Label)
     (h : replay P F (init n) tr = some c) (a : Nat) (x : Act) (hx : c.act? a = some x)
     (ht : ∃ k, x.kind = .top k) (hw : x.waitsFor = none) : ∀ m, x.res ≠ .exit m :=
   (StatusInv_sound P F n tr c h a x hx).2.2 ((C03_top_is_direct P F n tr c h a x hx).mpr ht) hw
-
-theorem isOk_eq_ok (r : Res) (h : r.isOk = true) : r = .ok := by cases r <;> first | rfl | cases h
-
-theorem parResults_one (c : Config) (rs : List Res) (h : parResults c 1 0 = some rs) :
-    ∃ id r, c.tops.lookup 0 = some id ∧ kidDone c id = some r ∧ rs = [r] := by
-  simp only [parResults] at h
-  split at h
-  · cases h
-  · rename_i id hid
-    split at h
-    · rename_i r rs' hr hrs
-      cases hrs; cases h
-      exact ⟨id, r, hid, hr, rfl⟩
-    · cases h
-
-theorem seqResult_one (c : Config) (r' : Res) (h : seqResult c 1 0 = some r') :
-    ∃ id, c.tops.lookup 0 = some id ∧ kidDone c id = some r' := by
-  simp only [seqResult] at h
-  split at h
-  · cases h
-  · rename_i id hid
-    split at h
-    · cases h
-    · rename_i r hr
-      split at h
-      · rename_i hok
-        cases h
-        exact ⟨id, hid, by rw [hr, isOk_eq_ok _ hok]⟩
-      · split at h
-        · cases h; exact ⟨id, hid, hr⟩
-        · cases h
 
 /-- **the invocation's status is the named task's.** For `task t` (one task on the command
 line): a complete run that passes `finalCheck` — the check the correspondence harness applies
